@@ -875,21 +875,91 @@ Proof.
     apply msafe_ret. apply HQ. exact Hok2.
 Qed.
 
-Definition p_ce_events (ce : centry) (fs : list pf) : list event :=
+Definition p_ce_events_with (pn : list ncall -> list event) (ce : centry) (fs : list pf) : list event :=
   let r := p_write_cores 0 (ce_cores ce) (ce_ent ce) fs in
   fst r ++ (if snd r && ce_errout ce then [ErrOut] else []) ++
-  (match ce_after ce with Some h => [Hook h] | None => [] end).
+  (match ce_after ce with Some h => pn (hk_nested h) ++ [Hook (hk_id h) (ce_ent ce)] | None => [] end).
+
+(* the logging a hook does before it looks at its entry: any program that, run on what the operation
+   owns, produces its specification and leaves the owned buffers as they were *)
+Definition run_ok (run : list ncall -> M (list event)) (pn : list ncall -> list event) : Prop :=
+  forall l ow s (Q : list id -> list event -> store -> Prop),
+    sok ow s -> (forall ow', sok ow' s -> Q ow' (pn l) s) -> msafe (run l) ow s Q.
+
+Lemma run_ok_none : run_ok (fun _ => ret []) (fun _ => []).
+Proof. intros l ow s Q Hok HQ. apply msafe_ret. apply HQ. exact Hok. Qed.
+
+Lemma ce_write_with_ok run pn ce fs ow s (Q : list id -> list event -> store -> Prop) :
+  run_ok run pn ->
+  ce_dirty ce = false -> sok ow s ->
+  (forall ow', sok ow' s -> Q ow' (p_ce_events_with pn ce fs) s) ->
+  msafe (ce_write_with run ce fs) ow s Q.
+Proof.
+  intros Hrun Hd Hok HQ. unfold ce_write_with. rewrite Hd.
+  apply msafe_bind. apply write_cores_ok; [exact Hok|]. intros ow1 Hok1.
+  apply msafe_bind.
+  destruct (ce_after ce) as [h|] eqn:Hafter.
+  - apply msafe_bind. apply Hrun; [exact Hok1|]. intros ow2 Hok2. apply msafe_ret.
+    apply msafe_bind. apply putp_ok; [reflexivity|exact I|]. apply msafe_ret.
+    unfold p_ce_events_with in HQ. rewrite Hafter in HQ. apply HQ. exact Hok2.
+  - apply msafe_ret.
+    apply msafe_bind. apply putp_ok; [reflexivity|exact I|]. apply msafe_ret.
+    unfold p_ce_events_with in HQ. rewrite Hafter in HQ. apply HQ. exact Hok1.
+Qed.
+
+Definition p_check_with (pn : list ncall -> list event) (cores : list core) (hook : option hookd) (ent : entry) (fs : list pf) : list event :=
+  fst (p_write_cores 0 cores ent fs) ++
+  (match hook with Some h => pn (hk_nested h) ++ [Hook (hk_id h) ent] | None => [] end).
+
+(* Core.Check(ent, nil) [+ After] + Write without a Logger: reset() on Get is all that stands between
+   the last user's ErrorOutput / hook / cores / dirty flag and this entry *)
+Lemma check_call_with_ok run pn cores hook ent fs ow s (Q : list id -> list event -> store -> Prop) :
+  run_ok run pn ->
+  sok ow s ->
+  (forall ow', sok ow' s -> Q ow' (p_check_with pn cores hook ent fs) s) ->
+  msafe (check_call_with run cores hook ent fs) ow s Q.
+Proof.
+  intros Hrun Hok HQ. unfold check_call_with.
+  assert (Hmain : msafe
+    (ce0 <- get_checked_entry ;;
+     ce_write_with run {| ce_ent := ent; ce_errout := ce_errout ce0; ce_dirty := ce_dirty ce0;
+                 ce_after := (match hook with Some h => Some h | None => ce_after ce0 end);
+                 ce_cores := ce_cores ce0 ++ cores |} fs) ow s Q).
+  { apply msafe_bind. unfold get_checked_entry. apply msafe_bind. apply getp_ok; [reflexivity|]. intros ce _.
+    apply msafe_ret. cbn [ce_reset ce_errout ce_dirty ce_cores ce_after app].
+    apply (ce_write_with_ok run pn); [exact Hrun|reflexivity|exact Hok|]. intros ow1 Hok1.
+    unfold p_ce_events_with. cbn [ce_cores ce_ent ce_errout ce_after].
+    rewrite andb_false_r. cbn [app].
+    specialize (HQ ow1 Hok1). unfold p_check_with in HQ. destruct hook; exact HQ. }
+  destruct cores as [|co cores'].
+  - destruct hook as [h|].
+    + exact Hmain.
+    + apply msafe_ret. apply HQ. exact Hok.
+  - exact Hmain.
+Qed.
+
+(* the hook's own log calls take CheckedEntries (and encoders, buffers ...) from the same pools while
+   the outer entry is in use: each produces its own lines *)
+Lemma run_nested_ok : forall l call ow s (Q : list id -> list event -> store -> Prop),
+  sok ow s -> (forall ow', sok ow' s -> Q ow' (p_nested call l) s) -> msafe (run_nested call l) ow s Q.
+Proof.
+  induction l as [|[[cores ent] fs] r IH]; intros call ow s Q Hok HQ; cbn [run_nested p_nested].
+  - apply msafe_ret. apply HQ. exact Hok.
+  - apply msafe_bind. apply (check_call_with_ok _ _ cores None ent fs ow s _ run_ok_none Hok). intros ow1 Hok1.
+    apply msafe_bind. apply IH; [exact Hok1|]. intros ow2 Hok2.
+    apply msafe_ret. unfold p_check_with. rewrite app_nil_r. apply HQ. exact Hok2.
+Qed.
+
+Lemma run_nested_run_ok : run_ok (run_nested 0) (p_nested 0).
+Proof. intros l ow s Q Hok HQ. apply run_nested_ok; assumption. Qed.
+
+Definition p_ce_events : centry -> list pf -> list event := p_ce_events_with (p_nested 0).
 
 Lemma ce_write_ok ce fs ow s (Q : list id -> list event -> store -> Prop) :
   ce_dirty ce = false -> sok ow s ->
   (forall ow', sok ow' s -> Q ow' (p_ce_events ce fs) s) ->
   msafe (ce_write ce fs) ow s Q.
-Proof.
-  intros Hd Hok HQ. unfold ce_write. rewrite Hd.
-  apply msafe_bind. apply write_cores_ok; [exact Hok|]. intros ow1 Hok1.
-  apply msafe_bind. apply putp_ok; [reflexivity|exact I|]. apply msafe_ret.
-  apply HQ. exact Hok1.
-Qed.
+Proof. intros Hd Hok HQ. apply (ce_write_with_ok _ _ ce fs ow s Q run_nested_run_ok Hd Hok HQ). Qed.
 
 Lemma log_call_ok lg ent cs fs ow s (Q : list id -> list event -> store -> Prop) :
   sok ow s ->
@@ -902,14 +972,15 @@ Proof.
     + apply msafe_bind. unfold get_checked_entry. apply msafe_bind. apply getp_ok; [reflexivity|]. intros ce _.
       apply msafe_ret. cbn [ce_reset ce_errout ce_dirty ce_cores app].
       apply ce_write_ok; [reflexivity|exact Hok|]. intros ow1 Hok1.
-      unfold p_ce_events. cbn [ce_cores ce_ent ce_errout ce_after p_write_cores fst snd andb app].
+      unfold p_ce_events, p_ce_events_with. cbn [ce_cores ce_ent ce_errout ce_after p_write_cores fst snd andb app].
+      unfold p_log_entry, p_hook in HQ. rewrite Hcores in HQ. cbn [p_write_cores fst snd andb app] in HQ.
       apply HQ. exact Hok1.
     + apply msafe_ret. apply HQ. exact Hok.
   - assert (HQ' : forall ow' e', sok ow' s -> e' = p_log_entry lg ent cs ->
               Q ow' (p_ce_events {| ce_ent := e'; ce_errout := l_errout lg; ce_dirty := false;
                                     ce_after := l_hook lg; ce_cores := co :: cores |} fs) s).
-    { intros ow' e' Hok' ->. unfold p_ce_events. cbn [ce_cores ce_ent ce_errout ce_after].
-      specialize (HQ ow' Hok'). destruct (l_hook lg); exact HQ. }
+    { intros ow' e' Hok' ->. unfold p_ce_events, p_ce_events_with. cbn [ce_cores ce_ent ce_errout ce_after].
+      specialize (HQ ow' Hok'). unfold p_hook in HQ. destruct (l_hook lg); exact HQ. }
     clear HQ.
     assert (Hmain : msafe
       (ce0 <- get_checked_entry ;;
@@ -970,30 +1041,14 @@ Proof.
     destruct (l_hook lg); exact Hmain.
 Qed.
 
-(* Core.Check(ent, nil) [+ After] + Write without a Logger: reset() on Get is all that stands between
-   the last user's ErrorOutput / hook / cores / dirty flag and this entry *)
 Lemma check_call_ok cores hook ent fs ow s (Q : list id -> list event -> store -> Prop) :
   sok ow s ->
   (forall ow', sok ow' s -> Q ow' (p_check cores hook ent fs) s) ->
   msafe (check_call cores hook ent fs) ow s Q.
 Proof.
-  intros Hok HQ. unfold check_call.
-  assert (Hmain : msafe
-    (ce0 <- get_checked_entry ;;
-     ce_write {| ce_ent := ent; ce_errout := ce_errout ce0; ce_dirty := ce_dirty ce0;
-                 ce_after := (match hook with Some h => Some h | None => ce_after ce0 end);
-                 ce_cores := ce_cores ce0 ++ cores |} fs) ow s Q).
-  { apply msafe_bind. unfold get_checked_entry. apply msafe_bind. apply getp_ok; [reflexivity|]. intros ce _.
-    apply msafe_ret. cbn [ce_reset ce_errout ce_dirty ce_cores ce_after app].
-    apply ce_write_ok; [reflexivity|exact Hok|]. intros ow1 Hok1.
-    unfold p_ce_events. cbn [ce_cores ce_ent ce_errout ce_after].
-    rewrite andb_false_r. cbn [app].
-    specialize (HQ ow1 Hok1). unfold p_check in HQ. destruct hook; exact HQ. }
-  destruct cores as [|co cores'].
-  - destruct hook as [h|].
-    + exact Hmain.
-    + apply msafe_ret. apply HQ. exact Hok.
-  - exact Hmain.
+  intros Hok HQ. apply (check_call_with_ok _ _ cores hook ent fs ow s Q run_nested_run_ok Hok).
+  intros ow' Hok'. specialize (HQ ow' Hok'). unfold p_check, p_hook in HQ. unfold p_check_with.
+  destruct hook; exact HQ.
 Qed.
 
 (* ------------------------------------------------------------------ *)
@@ -1256,6 +1311,62 @@ Proof.
   exists (p_check cores None ent fs). split.
   - apply (observe_spec h adv (OCheck cores None ent fs)).
   - unfold p_check. rewrite app_nil_r. apply p_write_cores_sinks.
+Qed.
+
+(* ---- the terminal hook, last user of the pooled CheckedEntry ---- *)
+(* each line of the hook's own logging is the line of one of ITS calls, written by one of that call's cores *)
+Lemma p_write_cores_lines cores : forall n ent fs ev, In ev (fst (p_write_cores n cores ent fs)) ->
+  exists co c, nth_error cores co = Some c /\ co_fail c = false /\ ev = SinkWrite (n + co) (p_core_line c ent fs).
+Proof.
+  induction cores as [|c0 r IH]; intros n ent fs ev Hin; cbn [p_write_cores fst] in Hin; [destruct Hin|].
+  apply in_app_or in Hin. destruct Hin as [Hin|Hin].
+  - destruct (co_fail c0) eqn:Hf; [destruct Hin|]. destruct Hin as [<-|[]].
+    exists 0, c0. rewrite Nat.add_0_r. repeat split; [exact Hf].
+  - destruct (IH (S n) ent fs ev Hin) as [co [c [Hnth [Hf ->]]]].
+    exists (S co), c. repeat split; [exact Hnth|exact Hf|]. f_equal. lia.
+Qed.
+
+Lemma p_nested_lines : forall l call ev, In ev (p_nested call l) ->
+  exists i cores nent nfs co c,
+    nth_error l i = Some (cores, nent, nfs) /\ nth_error cores co = Some c /\ co_fail c = false /\
+    ev = HookWrite (call + i) co (p_core_line c nent nfs).
+Proof.
+  induction l as [|[[cores nent] nfs] r IH]; intros call ev Hin; cbn [p_nested] in Hin; [destruct Hin|].
+  apply in_app_or in Hin. destruct Hin as [Hin|Hin].
+  - apply in_map_iff in Hin. destruct Hin as [ev0 [<- Hin0]].
+    destruct (p_write_cores_lines cores 0 nent nfs ev0 Hin0) as [co [c [Hnth [Hf ->]]]].
+    exists 0, cores, nent, nfs, co, c. rewrite Nat.add_0_r. cbn [relabel Nat.add nth_error]. repeat split; assumption.
+  - destruct (IH (S call) ev Hin) as [i [cs [ne [nf [co [c [Hnth [Hc [Hf ->]]]]]]]]].
+    exists (S i), cs, ne, nf, co, c. cbn [nth_error]. repeat split; try assumption. f_equal. lia.
+Qed.
+
+(* A Logger call at a level that has a hook, after any history and under any adversary: the cores
+   write, then the hook's own log calls produce their own lines, then the hook finds in the
+   CheckedEntry it was handed exactly the entry that was logged (with this call's caller and stack) *)
+Theorem hook_sees_logged_entry h adv lg ent cs fs hk :
+  l_hook lg = Some hk ->
+  exists pre, observe h adv (OLog lg ent cs fs) =
+                inl (OutEvents (pre ++ p_nested 0 (hk_nested hk) ++ [Hook (hk_id hk) (p_log_entry lg ent cs)])) /\
+              Forall (fun ev => (exists k b, ev = SinkWrite k b) \/ ev = ErrOut) pre.
+Proof.
+  intros Hh. rewrite observe_spec. cbn [op_spec]. unfold p_log. rewrite Hh.
+  set (r := p_write_cores 0 (l_cores lg) (p_log_entry lg ent cs) fs).
+  exists (fst r ++ (if snd r && (match l_cores lg with [] => false | _ => l_errout lg end) then [ErrOut] else [])).
+  split.
+  - unfold p_hook. destruct (l_cores lg); rewrite <- app_assoc; reflexivity.
+  - apply Forall_app. split.
+    + eapply Forall_impl; [|apply p_write_cores_sinks]. intros ev Hev. left. exact Hev.
+    + destruct (snd r && _); constructor; [right; reflexivity|constructor].
+Qed.
+
+(* ... and the same for an entry driven without a Logger: Check(ent, nil).After(ent, hook).Write() *)
+Theorem bare_hook_sees_entry h adv cores hk ent fs :
+  exists pre, observe h adv (OCheck cores (Some hk) ent fs) =
+                inl (OutEvents (pre ++ p_nested 0 (hk_nested hk) ++ [Hook (hk_id hk) ent])) /\
+              Forall (fun ev => exists k b, ev = SinkWrite k b) pre.
+Proof.
+  rewrite observe_spec. cbn [op_spec]. unfold p_check, p_hook.
+  exists (fst (p_write_cores 0 cores ent fs)). split; [reflexivity|apply p_write_cores_sinks].
 Qed.
 
 Theorem history_independent h1 h2 adv1 adv2 o : observe h1 adv1 o = observe h2 adv2 o.
